@@ -106,7 +106,7 @@ def random_type(rng, traits, opts=None):
         td.params.insert(1, {"kind": "lt", "name": "'b", "bounds": [ltname], "arg": "'static"})
         td.params.append({"kind": "ty", "name": "K", "bounds": [RT + "Payload"], "arg": RT + garg})
     if flavour in ("GN", "rich"):
-        cname = o.names.const_param(rng) if o.names else "N"
+        cname = o.names.const_param(rng) if o.names else rng.choice(["N", "N", "M", "H", "LEN", "HH"])
         td.params.append({"kind": "const", "name": cname, "arg": "2"})
         td.notes["const"] = cname
 
@@ -144,7 +144,7 @@ def random_type(rng, traits, opts=None):
     used_names = set()
 
     def fname():
-        while True:
+        for _try in range(200):
             if rng.random() < o.raw_idents:
                 n = rng.choice(RAW_NAMES)
             elif o.names:
@@ -154,6 +154,9 @@ def random_type(rng, traits, opts=None):
             if n not in used_names:
                 used_names.add(n)
                 return n
+        n = "fz%d" % len(used_names)
+        used_names.add(n)
+        return n
 
     def mk_variant(name, allow_unit=True):
         styles = ["tuple", "named"] + (["unit"] if allow_unit and min_fields == 0 else [])
